@@ -2,11 +2,27 @@
 
 package mq
 
-// Reference encoder: abstract packet -> frame, by the specification.
+// Reference encoder: abstract packet -> frame, by the specification. It also
+// records the "units" of the body: byte ranges [start,end) that form one
+// field in the sense of C09 (a) — a two- or four-byte integer, a length
+// prefixed string or binary, a variable byte integer, or a property
+// identifier together with its value.
 
-func zzPutVbi(b []byte, x uint32) []byte {
-	// minimal form, one to four bytes; x is concrete or symbolic: the number
-	// of bytes is decided by comparisons, the bytes by shifts and masks
+type zzEnc struct {
+	b     []byte
+	units [][2]int
+	noU   int // >0: inside a larger unit, do not record inner fields
+}
+
+func (e *zzEnc) unit(start int) {
+	if e.noU == 0 && len(e.b)-start >= 2 {
+		e.units = append(e.units, [2]int{start, len(e.b)})
+	}
+}
+
+func zzVbiBytes(x uint32) []byte {
+	// minimal form, one to four bytes; the number of bytes is decided by
+	// comparisons, the bytes by shifts and masks
 	n := 1
 	if x >= 128 {
 		n = 2
@@ -17,121 +33,157 @@ func zzPutVbi(b []byte, x uint32) []byte {
 	if x >= 2097152 {
 		n = 4
 	}
+	var b []byte
 	for i := 0; i < n; i++ {
-		e := byte(x>>(7*uint(i))) & 0x7f
+		c := byte(x>>(7*uint(i))) & 0x7f
 		if i < n-1 {
-			e |= 0x80
+			c |= 0x80
 		}
-		b = append(b, e)
+		b = append(b, c)
 	}
 	return b
 }
 
-func zzPutU16(b []byte, x uint16) []byte { return append(b, byte(x>>8), byte(x)) }
-func zzPutU32(b []byte, x uint32) []byte {
-	return append(b, byte(x>>24), byte(x>>16), byte(x>>8), byte(x))
+func (e *zzEnc) vbi(x uint32) {
+	s := len(e.b)
+	e.b = append(e.b, zzVbiBytes(x)...)
+	e.unit(s)
 }
-func zzPutStr(b []byte, s []byte) []byte {
-	b = zzPutU16(b, uint16(len(s)))
-	return append(b, s...)
+func (e *zzEnc) u8(x byte) { e.b = append(e.b, x) }
+func (e *zzEnc) u16(x uint16) {
+	s := len(e.b)
+	e.b = append(e.b, byte(x>>8), byte(x))
+	e.unit(s)
+}
+func (e *zzEnc) u32(x uint32) {
+	s := len(e.b)
+	e.b = append(e.b, byte(x>>24), byte(x>>16), byte(x>>8), byte(x))
+	e.unit(s)
+}
+func (e *zzEnc) str(x []byte) {
+	s := len(e.b)
+	e.b = append(e.b, byte(len(x)>>8), byte(len(x)))
+	e.b = append(e.b, x...)
+	e.unit(s)
 }
 
-func zzPutProps(b []byte, ps []zzProp) []byte {
-	var body []byte
+func (e *zzEnc) props(ps []zzProp) {
+	body := &zzEnc{}
 	for i := range ps {
 		p := &ps[i]
-		body = append(body, p.id)
+		s := len(body.b)
+		body.noU++
+		body.u8(p.id)
 		switch zzPropType(p.id) {
 		case zzTByte:
-			body = append(body, byte(p.u))
+			body.u8(byte(p.u))
 		case zzTU16:
-			body = zzPutU16(body, uint16(p.u))
+			body.u16(uint16(p.u))
 		case zzTU32:
-			body = zzPutU32(body, p.u)
+			body.u32(p.u)
 		case zzTVbi:
-			body = zzPutVbi(body, p.u)
+			body.vbi(p.u)
 		case zzTStr, zzTBin:
-			body = zzPutStr(body, p.s)
+			body.str(p.s)
 		case zzTPair:
-			body = zzPutStr(body, p.s)
-			body = zzPutStr(body, p.v)
+			body.str(p.s)
+			body.str(p.v)
+		}
+		body.noU--
+		body.unit(s)
+	}
+	e.vbi(uint32(len(body.b)))
+	off := len(e.b)
+	e.b = append(e.b, body.b...)
+	if e.noU == 0 {
+		for _, u := range body.units {
+			e.units = append(e.units, [2]int{u[0] + off, u[1] + off})
 		}
 	}
-	b = zzPutVbi(b, uint32(len(body)))
-	return append(b, body...)
 }
 
-// zzRefBody encodes variable header and payload.
-func zzRefBody(a *zzAbs) []byte {
-	var b []byte
+// zzRefBodyU encodes variable header and payload and returns the units.
+func zzRefBodyU(a *zzAbs) ([]byte, [][2]int) {
+	e := &zzEnc{}
 	switch a.typ {
 	case 1:
-		b = zzPutStr(b, a.protoName)
-		b = append(b, a.protoVer, a.connFlags)
-		b = zzPutU16(b, a.keepAlive)
-		b = zzPutProps(b, a.props)
-		b = zzPutStr(b, a.clientID)
+		e.str(a.protoName)
+		e.u8(a.protoVer)
+		e.u8(a.connFlags)
+		e.u16(a.keepAlive)
+		e.props(a.props)
+		e.str(a.clientID)
 		if a.hasWill {
-			b = zzPutProps(b, a.willProps)
-			b = zzPutStr(b, a.willTopic)
-			b = zzPutStr(b, a.willPayload)
+			e.props(a.willProps)
+			e.str(a.willTopic)
+			e.str(a.willPayload)
 		}
 		if a.hasUser {
-			b = zzPutStr(b, a.username)
+			e.str(a.username)
 		}
 		if a.hasPass {
-			b = zzPutStr(b, a.password)
+			e.str(a.password)
 		}
 	case 2:
-		b = append(b, a.ackFlags, a.reason)
-		b = zzPutProps(b, a.props)
+		e.u8(a.ackFlags)
+		e.u8(a.reason)
+		e.props(a.props)
 	case 3:
-		b = zzPutStr(b, a.topic)
-		if a.hflags&0x06 != 0 {
-			b = zzPutU16(b, a.pid)
+		e.str(a.topic)
+		if q := a.hflags & 0x06; q == 2 || q == 4 {
+			e.u16(a.pid)
 		}
-		b = zzPutProps(b, a.props)
-		b = append(b, a.payload...)
+		e.props(a.props)
+		e.b = append(e.b, a.payload...)
 	case 4, 5, 6, 7:
-		b = zzPutU16(b, a.pid)
+		e.u16(a.pid)
 		if a.form <= 1 {
-			b = append(b, a.reason)
+			e.u8(a.reason)
 		}
 		if a.form == 0 {
-			b = zzPutProps(b, a.props)
+			e.props(a.props)
 		}
 	case 8:
-		b = zzPutU16(b, a.pid)
-		b = zzPutProps(b, a.props)
+		e.u16(a.pid)
+		e.props(a.props)
 		for i := range a.filters {
-			b = zzPutStr(b, a.filters[i])
-			b = append(b, a.opts[i])
+			e.str(a.filters[i])
+			e.u8(a.opts[i])
 		}
 	case 9, 11:
-		b = zzPutU16(b, a.pid)
-		b = zzPutProps(b, a.props)
-		b = append(b, a.codes...)
+		e.u16(a.pid)
+		e.props(a.props)
+		e.b = append(e.b, a.codes...)
 	case 10:
-		b = zzPutU16(b, a.pid)
-		b = zzPutProps(b, a.props)
+		e.u16(a.pid)
+		e.props(a.props)
 		for i := range a.filters {
-			b = zzPutStr(b, a.filters[i])
+			e.str(a.filters[i])
 		}
 	case 14, 15:
 		if a.form <= 1 {
-			b = append(b, a.reason)
+			e.u8(a.reason)
 		}
 		if a.form == 0 {
-			b = zzPutProps(b, a.props)
+			e.props(a.props)
 		}
 	}
+	return e.b, e.units
+}
+
+func zzRefBody(a *zzAbs) []byte {
+	b, _ := zzRefBodyU(a)
 	return b
+}
+
+// zzFrame puts the fixed header in front of a body.
+func zzFrame(b0 byte, body []byte) []byte {
+	f := []byte{b0}
+	f = append(f, zzVbiBytes(uint32(len(body)))...)
+	return append(f, body...)
 }
 
 // zzRefEncode: complete frame.
 func zzRefEncode(a *zzAbs) []byte {
-	body := zzRefBody(a)
-	f := []byte{byte(a.typ)<<4 | a.hflags}
-	f = zzPutVbi(f, uint32(len(body)))
-	return append(f, body...)
+	return zzFrame(byte(a.typ)<<4|a.hflags, zzRefBody(a))
 }
